@@ -4,6 +4,9 @@ import kdf
 
 W = 1 << 64
 THEOREMS = ["Kdf.Props.C10." + t for t in ("search_eq_den", "set_ok", "set_wf", "set_den", "set_nomem", "copy_eq", "copy_fail", "history", "set_status")]
+LAYOUT_THEOREMS = ["Kdf.Props.C10." + t for t in ("layout_status", "layout_ok_map", "layout_ok_rev", "layout_ok_rev_some", "layout_no_fault")]
+DIRECT, RDIRECT = 2, 5          # ADDRXLAT_SYS_METH_DIRECT, ADDRXLAT_SYS_METH_RDIRECT
+OS_ARCHS = ["ppc64", "ia32", "x86_64", "s390x", "aarch64", "arm", "riscv64"]
 PTS = [0, 1, 0x1000, (1 << 63) - 1, 1 << 63, W - 2, W - 1]
 METHS = [-1, 0, 3]
 
@@ -190,13 +193,137 @@ def check_property(lines, outs):
     return None, None
 
 
+# ----------------------------------------------------------------------------- layout tables (sys_set_layout)
+def gen_layouts(R):
+    """cases: (prior table or None, table); a table is a list of (first, last, meth, direct)"""
+    rng = R.rng
+    def table():
+        pts = [0, W - 1]
+        out = []
+        for _ in range(rng.choice([1, 1, 2, 2, 3, 4, 6])):
+            def pick():
+                b = rng.choice(pts)
+                c = rng.random()
+                v = b + rng.choice([-1, 0, 0, 1]) if c < 0.6 else (rng.getrandbits(64) if c < 0.8 else rng.getrandbits(rng.randint(1, 63)))
+                return min(max(v, 0), W - 1)
+            a, b = sorted((pick(), pick()))
+            d = rng.random() < 0.4
+            out.append((a, b, DIRECT if d else rng.choice([-1, 0, 1, 3, 4, DIRECT]), 1 if d else 0))
+            pts += [a, b]
+        return out
+    # the shapes of the OS layouts: one direct region at the bottom / in the middle / at the top of the address space
+    fixed = [[(0xc000000000000000, 0xcfffffffffffffff, DIRECT, 1), (0xd000000000000000, 0xd00007ffffffffff, 0, 0)],
+             [(0, 0xffff, DIRECT, 1)], [(W - 0x10000, W - 1, DIRECT, 1)], [(0, W - 1, DIRECT, 1)],
+             [(0x1000, 0x1fff, DIRECT, 1), (0x1000, 0x1fff, DIRECT, 1)],
+             [(0x1000, 0x1fff, DIRECT, 1), (0x800, 0x2fff, DIRECT, 1), (0x10, 0x20, DIRECT, 1)]]
+    cases = [(None, t) for t in fixed] + [(fixed[1], t) for t in fixed]
+    for _ in range(150 if R.tier == "quick" else 4000):
+        cases.append((table() if rng.random() < 0.5 else None, table()))
+    return cases
+
+
+def layout_lines(cases):
+    """every table is applied with no fault and with the k-th allocation failing for every k up to the largest
+    number of allocations the call can make (map object + per region: reverse map object, its assignment, the
+    assignment itself)"""
+    lines, owner = [], []
+    fmt_t = lambda t: "%d %s" % (len(t), " ".join("%d %d %d %d" % g for g in t))
+    for ci, (prior, t) in enumerate(cases):
+        for k in range(0, 3 + 3 * len(t)):
+            ls = ["lnew"] + (["layout 0 " + fmt_t(prior)] if prior else []) + ["layout %d %s" % (k, fmt_t(t))]
+            lines += ls
+            owner += [ci] * len(ls)
+    return lines, owner
+
+
+def parse_slots(o):
+    """'<status> M <slot> R <slot>' -> status, map ranges | None, rev ranges | None"""
+    t = o.split()
+    i, j = t.index("M"), t.index("R")
+    slot = lambda x: None if x == ["null"] else parse_map(x)
+    return t[0], slot(t[i + 1:j]), slot(t[j + 1:])
+
+
+def check_layouts(lines, outs):
+    mref = rref = None
+    for i, (ln, o) in enumerate(zip(lines, outs)):
+        w = ln.split()
+        if w[0] == "lnew":
+            mref, rref = Ref(), Ref()
+            if o != "ok":
+                return i, "bad lnew output"
+            continue
+        k, n = int(w[1]), int(w[2])
+        regs = [tuple(int(x) for x in w[3 + 4 * j:7 + 4 * j]) for j in range(n)]
+        try:
+            st, mr, rr = parse_slots(o)
+        except ValueError:
+            return i, "bad layout output '%s'" % o[:100]
+        mv, e1 = view_of(mr or [])
+        rv, e2 = view_of(rr or [])
+        if e1 or e2:
+            return i, "after a layout table: " + (e1 or e2)
+        # the states the two maps go through
+        states = [(list(mref.segs), list(rref.segs))]
+        for (a, b, m, d) in regs:
+            if d:
+                rref.set(0, b - a, RDIRECT)
+                states.append((list(mref.segs), list(rref.segs)))   # reverse map assigned, region not yet
+            mref.set(a, b, m)
+            states.append((list(mref.segs), list(rref.segs)))
+        tab = ", ".join("[%#x..%#x -> %d%s]" % (a, b, m, " direct" if d else "") for a, b, m, d in regs)
+        if st == "ok":
+            if mr is None:
+                return i, "layout table {%s} reported success but the map was not created" % tab
+            if mv != states[-1][0]:
+                return i, "layout table {%s} (allocation %d failing) reported success; the map is %s, the table describes %s" % (tab, k, fmt(mv), fmt(states[-1][0]))
+            if rv != states[-1][1]:
+                return i, ("layout table {%s} (allocation %d failing) reported success; the reverse direct map is %s (%s), the table describes %s"
+                           % (tab, k, fmt(rv), "no map" if rr is None else "%d ranges" % len(rr), fmt(states[-1][1])))
+        elif st == "nomem":
+            if k == 0:
+                return i, "layout table {%s} failed with nomem although every allocation succeeded" % tab
+            if (mv, rv) not in states[:-1]:
+                return i, "layout table {%s} failed (allocation %d): maps %s / %s are not a state between two assignments" % (tab, k, fmt(mv), fmt(rv))
+            mref, rref = Ref(mv), Ref(rv)
+        else:
+            return i, "layout table {%s} returned status %s" % (tab, st)
+    return None, None
+
+
+def check_osinit(lines, outs):
+    """addrxlat_sys_os_init with the k-th allocation failing: the call fails, or all maps are those of the
+    undisturbed run"""
+    ref, n = {}, 0
+    for i, (ln, o) in enumerate(zip(lines, outs)):
+        _, arch, k = ln.split()
+        t = o.split(" |")
+        head = t[0].split()
+        if head[0] != "osinit":
+            return i, "bad osinit output '%s'" % o[:100], n
+        st, maps = int(head[1]), t[1:]
+        if int(k) == 0:
+            ref[arch] = (st, maps, int(head[3]))
+            continue
+        if ref[arch][0] != 0 or int(k) > ref[arch][2]:
+            continue
+        n += 1
+        if st == 0 and maps != ref[arch][1]:
+            names = ["HW", "KV_PHYS", "KPHYS_DIRECT", "MACHPHYS_KPHYS", "KPHYS_MACHPHYS"]
+            bad = [j for j in range(len(maps)) if maps[j] != ref[arch][1][j]]
+            return i, ("addrxlat_sys_os_init(arch=%s, os_type=linux) with allocation %d of %d failing returned OK, but map %s is '%s'; "
+                       "without the failure it is '%s'" % (arch, int(k), ref[arch][2], names[bad[0]] if bad[0] < 5 else bad[0],
+                                                           maps[bad[0]].strip(), ref[arch][1][bad[0]].strip())), n
+    return None, None, n
+
+
 def fmt(segs):
     return "[" + ", ".join("%#x:%d" % s for s in segs) + "]"
 
 
 def run(R):
     facts, changed = R.extract()
-    proof = R.prove(["Kdf.Props.C10"], THEOREMS) if THEOREMS else dict(obligations=0, discharged=0, broken=[], axioms={}, log="")
+    proof = R.prove(["Kdf.Props.C10"], THEOREMS + LAYOUT_THEOREMS)
     seqs = gen(R)
     lines, owner = [], []
     for si, s in enumerate(seqs):
@@ -213,6 +340,40 @@ def run(R):
     idx, msg = check_property(lines, impl)
     if idx is None and crashed:
         idx, msg = len(impl), "harness stopped (rc=%s): %s" % (rc, err.strip().split("\n")[0] if err.strip() else "")
+    # ---- layout tables: sys_set_layout with every allocation failing in turn (implementation and model), and the
+    #      real OS layouts through addrxlat_sys_os_init (implementation only)
+    lcases = gen_layouts(R)
+    llines, lowner = layout_lines(lcases)
+    ltext = "\n".join(llines) + "\n"
+    lrc, lout, lerr = R.run_harness(exe, stdin_text=ltext)
+    limpl = kdf.obs(lout)
+    lmodel = kdf.obs(R.run_driver("map", ltext))
+    lidx, lmsg = check_layouts(llines, limpl)
+    if lidx is None and (lrc != 0 or len(limpl) != len(llines)):
+        lidx, lmsg = len(limpl), "harness stopped in a layout table (rc=%s): %s" % (lrc, lerr.strip().split("\n")[0] if lerr.strip() else "")
+    lmism = kdf.diff_streams(limpl, lmodel)
+    olines = ["osinit %s %d" % (a, k) for a in OS_ARCHS for k in range(0, 41)]
+    orc, oout, oerr = R.run_harness(exe, stdin_text="\n".join(olines) + "\n")
+    oimpl = kdf.obs(oout)
+    oidx, omsg, on = check_osinit(olines, oimpl)
+    if oidx is None and (orc != 0 or len(oimpl) != len(olines)):
+        oidx, omsg = len(oimpl), "harness stopped in osinit (rc=%s): %s" % (orc, oerr.strip().split("\n")[0] if oerr.strip() else "")
+    if lidx is not None:
+        ci = lowner[min(lidx, len(lowner) - 1)]
+        first = max(j for j in range(min(lidx, len(llines) - 1) + 1) if llines[j] == "lnew")
+        R.violation(lmsg, dict(stream="map", layout_case=lcases[ci], input="\n".join(llines[first:lidx + 1]) + "\n",
+                               failing_line=llines[lidx] if lidx < len(llines) else None, impl_output=limpl[first:lidx + 1],
+                               model_output=lmodel[first:lidx + 1], stderr=lerr[-1500:], broken_theorems=proof["broken"]))
+    if oidx is not None:
+        R.violation(omsg, dict(stream="map (implementation only)", input=olines[min(oidx, len(olines) - 1)] + "\n",
+                               reference_input=olines[min(oidx, len(olines) - 1)].rsplit(" ", 1)[0] + " 0\n",
+                               impl_output=oimpl[oidx] if oidx < len(oimpl) else None, stderr=oerr[-1500:]))
+    if lidx is None and oidx is None and idx is None and lmism is not None and not proof["broken"] and mism is None:
+        R.violation("correspondence broken on a layout table: first differing line %d '%s'" % (lmism, llines[min(lmism, len(llines) - 1)]),
+                    dict(stream="map", first_diff=dict(index=lmism, line=llines[min(lmism, len(llines) - 1)],
+                                                       impl=limpl[lmism] if lmism < len(limpl) else None,
+                                                       model=lmodel[lmism] if lmism < len(lmodel) else None)),
+                    found_input=False)
     if idx is not None:
         si = owner[min(idx, len(owner) - 1)]
         first = owner.index(si)
@@ -242,12 +403,18 @@ def run(R):
                checker_cmd="cd lean && lake build Kdf.Props.C10 && #print axioms on each theorem",
                trusted_base=["Lean 4 kernel", "axioms: " + ", ".join(sorted({a for v in proof["axioms"].values() for a in v}) or ["none"]),
                              "realloc modelled as succeed/fail preserving content", "harness/s_map.c + gcc + ASan/UBSan"],
-               broken_theorems=proof["broken"], theorems=THEOREMS,
-               evaluations=len(lines), distinct_nontrivial=len(nontriv),
+               broken_theorems=proof["broken"], theorems=THEOREMS + LAYOUT_THEOREMS,
+               evaluations=len(lines) + len(llines) + on, distinct_nontrivial=len(nontriv) + len(lcases),
+               layout_cases=len(lcases), layout_lines=len(llines), osinit_fault_runs=on, layout_correspondence_first_diff=lmism,
                rule="op sequences over 4 maps: exhaustive pairs (sampled/exhaustive-shuffled triples) of sets with endpoints in the 7-point "
                     "breakpoint set x 3 methods, random boundary-biased histories of <=40 ops with copies; every set is run first with realloc "
-                    "failing, then succeeding, followed by searches at all boundaries +-1; non-trivial = distinct sequences with >=2 sets",
-               traces_validated_against_impl=len(impl), correspondence_first_diff=mism, case_kinds=kinds,
+                    "failing, then succeeding, followed by searches at all boundaries +-1; layout tables (sys_set_layout: 1-6 regions, "
+                    "direct regions that also fill the reverse direct map, on empty slots or after a prior table) with no fault and with the k-th "
+                    "allocation failing for every k; addrxlat_sys_os_init(arch, linux) for 7 architectures with every allocation failing in turn; "
+                    "non-trivial = distinct sequences with >=2 sets, and layout cases",
+               traces_validated_against_impl=len(impl) + len(limpl), correspondence_first_diff=mism, case_kinds=kinds,
                samples=[dict(sequence=seqs[i]) for i in (0, len(seqs) // 2, len(seqs) - 1)])
     return "proof", cov, ["no-wrap guard addr+endoff < 2^64 (wrapping ranges are outside the property)",
-                          "realloc/malloc succeed or fail as scheduled and preserve content"]
+                          "realloc/malloc succeed or fail as scheduled and preserve content",
+                          "addrxlat_sys_os_init under allocation failure is evaluated on the implementation only (its layout tables are "
+                          "not modelled; sys_set_layout itself is: setLayout)"]
